@@ -128,7 +128,7 @@ def mcmc_case(draw, tier, holes=False, maxN=None):
     if nedges <= 40 and draw(st.integers(0, 5)) == 5:
         L = None
     search = draw(st.sampled_from([None, 1, 2, 5, 10, 20, 30]))
-    tgt = {"seed": draw(st.integers(0, 10 ** 6)), "holes": []}
+    tgt = {"seed": draw(st.integers(0, 10 ** 6)), "holes": [], "dict_reversed": draw(st.booleans())}
     if holes:
         tgt["holes"] = [[draw(st.integers(0, 2)), draw(st.integers(0, 30)), draw(st.integers(0, 30)),
                          draw(st.sampled_from(["absent", "zero"]))] for _ in range(draw(st.integers(1, 12)))]
@@ -169,6 +169,9 @@ def run_rewire(case):
     N = Network()
     N.G = G
     mats, holes = target_matrices(case)
+    if case["target"].get("dict_reversed"):
+        # the mapping of matrices may list the topologies in another order than the names list
+        mats = dict(reversed(list(mats.items())))
     ej = JointExcessJointDegreeMatrices({TN.EJKS: mats, TN.EDGE_NAMES: NC.names(net)})
     params = {TN.NETWORK: N, TN.EJKS: ej}
     if case["L"] is not None:
